@@ -216,7 +216,9 @@ func (j *JSONRPCServer) ExecuteActions(
 		}
 	}
 	for i, value := range values {
-		if value == nil {
+		// a key is absent iff the read reported it not found: an existing key
+		// may hold an empty value
+		if errs[i] != nil {
 			continue
 		}
 		storage[string(storageKeysToRead[i])] = value
